@@ -3,7 +3,7 @@
 From Coq Require Import List NArith ZArith.
 From DSD Require Import Base.Str Base.Errors Model.ComplexUtils Model.Rotation Proofs.RotOrbit Proofs.RotGen Proofs.C02.
 From DSD Require Import Model.RegStr Model.Heap Model.Registry Model.RegSplit
-  Proofs.RegHeap Proofs.RegInv Proofs.RegCalls Proofs.RegC04 Proofs.RegStep Proofs.RegC02 Proofs.RegC09 Proofs.RegC09b.
+  Proofs.RegHeap Proofs.RegInv Proofs.RegCalls Proofs.RegC04 Proofs.RegStep Proofs.RegC02 Proofs.RegC09 Proofs.RegC09b Proofs.RegC09c.
 Import ListNotations.
 
 (* an automatically named request for a well-formed complex: it yields the owner of the canonical form
@@ -64,3 +64,42 @@ Theorem C09_histories_with_split : forall ct st ops,
   consts_nonzero ct -> XGood ct st -> xguarded ct st ops -> XGood ct (xrun ct st ops).
 Proof. exact xgood_run. Qed.
 Print Assumptions C09_histories_with_split.
+
+(* the components computed from the strand table and the pair table of ANY live complex are well-formed,
+   aligned, have non-empty strands and consist of elements the source holds (split never fails before the
+   first constructor call): the guard of C09_split_objects follows from the invariant *)
+Theorem C09_split_parts_ready : forall st i ob es ss t,
+  ROK st -> live_obj (heap st) i ob -> o_data ob = DCplx es ss t ->
+  exists ptab parts,
+    make_pair_table cP [cD] ss = Ok ptab /\
+    split_complex_pt (S (length ptab)) (elem_strands es) ptab = Ok parts /\
+    GoodParts (o_children ob) parts.
+Proof. exact split_parts_ready. Qed.
+Print Assumptions C09_split_parts_ready.
+
+(* C09_split_objects for every live complex of a non-failing class (PREFIX non-empty, counter defined) *)
+Theorem C09_split_objects_live : forall ct st dst src i ob ci es ss t,
+  Inv ct st -> ROK st -> DOK ct st ->
+  get_root st src = Some i -> hget (heap st) i = Some ob -> o_data ob = DCplx es ss t ->
+  ClassGood ct (o_cls ob) ci -> (exists z, class_id ct st (o_cls ob) = Some z) ->
+  let r := split_op ct st dst src in
+  Inv ct (fst r) /\ ROK (fst r) /\ DOK ct (fst r) /\ Collected (fst r) /\
+  exists parts s' ys,
+    (exists ptab, make_pair_table cP [cD] ss = Ok ptab /\
+                  split_complex_pt (S (length ptab)) (elem_strands es) ptab = Ok parts) /\
+    GoodParts (o_children ob) parts /\
+    Inv ct s' /\ roots s' = roots st ++ map Some ys /\ KeepsO st s' /\
+    match snd r with
+    | Yielded ids =>
+        ids = ys /\ Forall2 (fun p x => owner_of s' (o_cls ob) (comp_of p) x) parts ids /\
+        fst r = collect (store_from (trim_roots s' (length (roots st))) dst ids)
+    | XOut (Raised k e) =>
+        k = eSingleton /\ e = None /\
+        exists done p rest, parts = done ++ p :: rest /\
+                            Forall2 (fun p x => owner_of s' (o_cls ob) (comp_of p) x) done ys /\
+                            refused_at ct (o_cls ob) ci s' (comp_of p) /\
+                            fst r = collect (trim_roots s' (length (roots st)))
+    | XOut _ => False
+    end.
+Proof. exact split_objects_live. Qed.
+Print Assumptions C09_split_objects_live.
